@@ -1,5 +1,6 @@
 import PysnarkModel.Lemmas.PyRunOps5
 import PysnarkModel.Lemmas.InvRun
+import PysnarkModel.Lemmas.IteTag
 /-!
 # C05 at program level: selection, one instruction, the whole run (agreement)
 
@@ -23,28 +24,45 @@ theorem smallIntSame_py {pt pf : PyVal} (ht : ValRef t pt) (hf : ValRef f pf)
     simp only [Bool.and_eq_true, beq_iff_eq, decide_eq_true_eq] at h
     simp [pySameObj, h.1.1]
 
-/-- `falsev + cond * (truev - falsev)` on scalars -/
+/-- `falsev + cond * (truev - falsev)` on scalars; a boolean (whose value the constructor has tested)
+exactly when both branches are booleans -/
 theorem iteAux_sc {c : LinComb} {n : Nat} (hn : smallIntSame t f = false) (ht : t.isPy = true)
     (hf : f.isPy = true) (hts : t.isSeq = false) (h : iteAux c (n+1) t f s = .ok (v, s')) :
-    t.isSc = true ∧ f.isSc = true ∧ Same s s' ∧ v.isSc = true ∧ v.isLcb = false ∧
-      v.num = f.num + c.value * (t.num - f.num) := by
+    t.isSc = true ∧ f.isSc = true ∧ Same s s' ∧ v.isSc = true ∧ v.isLcb = (t.isLcb && f.isLcb) ∧
+      v.num = f.num + c.value * (t.num - f.num) ∧ (v.isLcb = true → v.num = 0 ∨ v.num = 1) := by
   have key : ∀ {s0 s0' : St}, (do
         let f' ← (pure f : M Val)
         let d ← subV t f'
         let prod ← mulLV c d
-        addV f' prod) s0 = .ok (v, s0') →
-      t.isSc = true ∧ f.isSc = true ∧ Same s0 s0' ∧ v.isSc = true ∧ v.isLcb = false ∧
-        v.num = f.num + c.value * (t.num - f.num) := by
+        let ret ← addV f' prod
+        iteTag t f' ret) s0 = .ok (v, s0') →
+      t.isSc = true ∧ f.isSc = true ∧ Same s0 s0' ∧ v.isSc = true ∧ v.isLcb = (t.isLcb && f.isLcb) ∧
+        v.num = f.num + c.value * (t.num - f.num) ∧ (v.isLcb = true → v.num = 0 ∨ v.num = 1) := by
     intro s0 s0' hk
     obtain ⟨f', s1, h1, hk1⟩ := bind_ok.mp hk
     obtain ⟨rfl, rfl⟩ := pure_ok' h1
     obtain ⟨d, s2, h2, hk2⟩ := bind_ok.mp hk1
     obtain ⟨prod, s3, h3, hk3⟩ := bind_ok.mp hk2
+    obtain ⟨ret, s4, h4, hk4⟩ := bind_ok.mp hk3
     obtain ⟨st, sf⟩ := subV_ok_sc ht hf h2
     obtain ⟨rfl, sd, -, nd, -⟩ := subV_sc st sf h2
     obtain ⟨sm, z, rfl, vz⟩ := mulLV_sc sd h3
-    obtain ⟨rfl, sv, lv, nv, -⟩ := addV_sc sf (b := .lc z) rfl hk3
-    exact ⟨st, sf, sm, sv, lv, by rw [nv, Val.num_lc, vz, nd]⟩
+    obtain ⟨rfl, sv, lv, nv, hlc⟩ := addV_sc sf (b := .lc z) rfl h4
+    have nv' : ret.num = f.num + c.value * (t.num - f.num) := by rw [nv, Val.num_lc, vz, nd]
+    by_cases hbb : bothLcb t f = true
+    · -- two booleans: `LinCombBool(ret, False)`
+      cases t <;> cases f <;> simp only [bothLcb, reduceCtorEq] at hbb
+      obtain ⟨w, rfl⟩ := Val.isLc_iff.mp (hlc rfl)
+      rw [iteTag_bb] at hk4
+      obtain ⟨b, s5, h5, hk5⟩ := bind_ok.mp hk4
+      obtain ⟨rfl, rfl⟩ := pure_ok' hk5
+      obtain ⟨sm2, rfl, hb⟩ := mkBool_val h5
+      exact ⟨st, sf, sm.trans sm2, rfl, rfl, nv', fun _ => hb⟩
+    · rw [iteTag_other _ (by simpa using hbb)] at hk4
+      obtain ⟨rfl, rfl⟩ := pure_ok' hk4
+      have hl : (t.isLcb && f.isLcb) = false := by
+        cases t <;> cases f <;> first | rfl | exact absurd rfl hbb
+      exact ⟨st, sf, sm, sv, by rw [lv, hl], nv', fun h => by rw [lv] at h; cases h⟩
   unfold iteAux at h
   simp only [hn, Bool.false_eq_true, if_false] at h
   cases t with
@@ -126,8 +144,8 @@ theorem ifThenElse_py {cond : Val} {same : Bool} {pc pt pf : PyVal} (hc : ValRef
             · exact hf
         | lcb c =>
           simp only at h
-          obtain ⟨-, -, sm, sv, lv, nv⟩ := iteAux_sc hsm ht.isPy hf.isPy qt h
-          refine ⟨sm, _, hpy, valRef_of_intres sv lv ?_⟩
+          obtain ⟨-, -, sm, sv, lv, nv, -⟩ := iteAux_sc hsm ht.isPy hf.isPy qt h
+          refine ⟨sm, _, hpy, valRef_of_intres sv (by rw [lv, lt]; rfl) ?_⟩
           rw [nv, nt, nf]; ring
         | _ => simp only [raise_ok] at h
     · have hso' : pySameObj pt pf = false := by
@@ -157,15 +175,27 @@ theorem ifThenElse_py {cond : Val} {same : Bool} {pc pt pf : PyVal} (hc : ValRef
         simp only at h
         have hq := hx rfl rfl
         simp only [Bool.or_eq_false_iff] at hq
-        obtain ⟨st, sf, sm, sv, lv, nv⟩ := iteAux_sc hsm ht.isPy hf.isPy hq.1 h
-        obtain ⟨nt, -, -⟩ := ht.sc st
-        obtain ⟨nf, -, -⟩ := hf.sc sf
-        refine ⟨sm, .int (if c.value = 0 then f.num else t.num), ?_, valRef_of_intres sv lv ?_⟩
-        · simp only [pyIte, hso', Bool.or_self, Bool.false_eq_true, if_false, nt, nf]
-        · rw [nv]
+        obtain ⟨st, sf, sm, sv, lv, nv, hvb⟩ := iteAux_sc hsm ht.isPy hf.isPy hq.1 h
+        obtain ⟨nt, bt, -⟩ := ht.sc st
+        obtain ⟨nf, bf, -⟩ := hf.sc sf
+        have nv' : v.num = if c.value = 0 then f.num else t.num := by
+          rw [nv]
           rcases hb with h0 | h1
           · simp [h0]
           · simp [h1]
+        refine ⟨sm, pyTag (t.isLcb && f.isLcb) (if c.value = 0 then f.num else t.num), ?_, ?_⟩
+        · simp only [pyIte, hso', Bool.or_self, Bool.false_eq_true, if_false, nt, nf, bt, bf]
+        · cases hl : (t.isLcb && f.isLcb) with
+          | false =>
+            simp only [pyTag, Bool.false_eq_true, if_false]
+            exact valRef_of_intres sv (by rw [lv, hl]) nv'
+          | true =>
+            simp only [pyTag, if_true]
+            rw [hl] at lv
+            obtain ⟨w, rfl⟩ : ∃ w, v = .lcb w := by
+              cases v <;> simp only [Val.isLcb, Bool.false_eq_true] at lv
+              exact ⟨_, rfl⟩
+            exact valRef_lcb_res nv' (nv' ▸ hvb lv)
       | _ => simp only [raise_ok] at h
 end ite
 
